@@ -5,7 +5,8 @@ Property theorems only; helper lemmas live in `Dtn7.Lemmas.Spray`, the model and
 `Dtn7.Model.Spray`.
 
 Reading guide. A history is a list of events (`submit`, `receive k prev`, `peerUp`, `peerDown`,
-`tick`, `restart`); every event that forwards the bundle carries the environment's choices `Env`:
+`tick`, `restart`, `loopback k prev` = the bundle is received again while it is still in the store:
+the node's own bundle looped back by a peer, or a relayed bundle arriving a second time); every event that forwards the bundle carries the environment's choices `Env`:
 the order in which the CLA manager lists its senders, the set of peers whose `Send` fails, and the
 schedule `σ` of the concurrent `ReportFailure` goroutines (a list of thread indices; a blocked or
 finished thread that is scheduled stutters, so *every* list is a schedule and every interleaving of
@@ -159,6 +160,13 @@ theorem gen_other_locks :
     Dtn7.Gen.C18.garbageCollectCallsBinarySpray =
       ["bs.dataMutex.Lock", "cleanupMetaData", "bs.dataMutex.Unlock"] := by decide
 
+/-- `Core.receive`: the test "the descriptor loaded from the store already has constraints ⇒ known
+bundle ⇒ return" comes before `NotifyNewBundle` (the first two entries); a duplicate reception never
+reaches the algorithm. -/
+theorem gen_receive_known_first :
+    Dtn7.Gen.C18.receiveOrder.take 2 = ["if len(bp.Constraints) > 0", "  return"] ∧
+    Dtn7.Gen.C18.receiveOrder.getLast? = some "c.routing.NotifyNewBundle(bp)" := by decide
+
 /-- `Core.forward`: direct delivery first, the algorithm only if there is no sender for the
 destination; every failed `Send` is reported; `checkPendingBundles` re-dispatches pending bundles. -/
 theorem gen_forward :
@@ -220,7 +228,8 @@ theorem spray_conservation_overlapping_runs (acts : List Action)
 left-over metadata; nothing stored, nothing sent. -/
 def FreshSpray (s : Node) : Prop := s.algo = .spray ∧ s.stored = false ∧ s.log = []
 
-/-- The bundle enters the node once: no other `submit`/`receive` of the same bundle. -/
+/-- The bundle enters the node once: no other `submit`, and no `receive` of it once it has left the
+store again. Duplicate receptions while it is stored (`loopback`) are ordinary events of the history. -/
 def NoEntry (evs : List Event) : Prop := ∀ ev ∈ evs, ev.isEntry = false
 
 /-- **Conservation** (∀ L, peers, histories, schedules — complete or not): copies kept plus
@@ -360,7 +369,8 @@ def exEnv (fails : List Peer) (k : Nat) : Env :=
   { order := [3, 2, 1, 0], fails := fails, sched := seqSched 4 k ++ seqSched 4 k }
 def exHistory : List Event :=
   [.peerUp 1 (exEnv [] 0), .peerUp 2 (exEnv [] 0), .submit (exEnv [1, 2] 2), .tick (exEnv [2] 1),
-   .restart, .peerUp 3 (exEnv [] 0), .peerUp 0 (exEnv [0] 1), .tick (exEnv [] 0)]
+   .loopback none (some 1), .restart, .peerUp 3 (exEnv [] 0), .loopback (some 7) (some 3),
+   .peerUp 0 (exEnv [0] 1), .tick (exEnv [] 0)]
 
 example : FreshSpray exNode := ⟨rfl, rfl, rfl⟩
 example : runComplete {} exNode exHistory = true := by decide
@@ -439,6 +449,21 @@ theorem binary_leak_witness :
 theorem binary_leak_repaired :
     (run {} { algo := .binary, l := 4, dest := 0 }
       [.peerUp 1 (exEnv [] 0), .submit (exEnv [1] 1)]).md = some ⟨[], 4⟩ := by decide
+
+/-- Why `Core.receive` must return *before* `NotifyNewBundle` for a bundle it already knows
+(fact `gen_receive_known_first`): were the algorithm notified again, the node's own bundle looped back
+by peer 1 would refill the budget and forget who was served — L = 3: peers 1 and 2 are served, the
+duplicate arrives, peers 1 (again), 3 and 4... four successful relays instead of at most two. -/
+theorem renotify_refills_budget_witness :
+    let s1 := run {} { algo := .spray, l := 3, dest := 0 }
+      [.submit (exEnv [] 0), .peerUp 1 (exEnv [] 0), .peerUp 2 (exEnv [] 0)]
+    let s2 := run {} (loopbackRenotify s1 true none (some 1)) [.tick (exEnv [] 0), .peerUp 3 (exEnv [] 0)]
+    Budget 3 0 s1.log ∧ ¬ Budget 3 0 s2.log ∧
+    (relayed 0 s2.log).map (·.peer) = [1, 2, 2, 1] := by decide
+
+/-- The model's `loopback` is what the unchanged code does: nothing. -/
+theorem loopback_is_noop (s : Node) (k : Option Nat) (prev : Option Peer) :
+    step {} s (.loopback k prev) = s := rfl
 
 /-- Why `relay_single_copy_waits` excludes a bundle that arrived from its own destination: the
 previous node is recorded in `sent`, so a failed direct delivery to it is taken for a failed relay
